@@ -75,3 +75,9 @@ Qed.
 Lemma st_dec_of_Z_of_N (n : N) : dec_of_Z (Z.of_N n) = dec_of_N n.
 Proof. destruct n; reflexivity. Qed.
 
+
+(* re.ReplaceAllString(s, repl) of a package-level regexp stays a parameter of the translation (regular expressions are
+   not modelled).  The instance for a hand-written matcher f that implements the replacement with the template `want`:
+   with any other template the instance answers the empty string, so a lemma `model = source` also says that the source
+   passes exactly this template. *)
+Definition st_re (f : bstr -> bstr) (want : bstr) (s repl : bstr) : bstr := if bstr_eqb repl want then f s else [].
